@@ -10,7 +10,6 @@ import (
 	"time"
 
 	"net/http"
-	"net/netip"
 
 	"github.com/pkg/errors"
 	"github.com/ysugimoto/falco/v2/interpreter/context"
@@ -126,13 +125,11 @@ func (v *LogScopeVariables) Get(s context.Scope, name string) (value.Value, erro
 		return v.ctx.ObjectTTL, nil
 
 	case REQ_IS_IPV6:
-		parsed, err := netip.ParseAddr(v.ctx.Request.RemoteAddr)
+		is6, err := isRemoteAddrIPv6(v.ctx.Request.RemoteAddr)
 		if err != nil {
-			return value.Null, errors.WithStack(fmt.Errorf(
-				"could not parse remote address",
-			))
+			return value.Null, errors.WithStack(err)
 		}
-		return &value.Boolean{Value: parsed.Is6()}, nil
+		return &value.Boolean{Value: is6}, nil
 	case REQ_IS_PURGE:
 		return &value.Boolean{Value: v.ctx.Request.Method == "PURGE"}, nil
 
